@@ -12,7 +12,7 @@ import random
 
 from .. import structs
 from ..common import Run
-from ..structcorr import build_items, report_unexplained, run_items
+from ..structcorr import Case, build_items, report_unexplained, run_items
 from . import _family as F
 from .C05 import ref_leb_decode, ref_uleb, ref_ileb
 
@@ -51,8 +51,8 @@ def fidelity_problem(cs, T, data: bytes, text: str):
     if len(out) != n:
         # non-canonical input (non-minimal LEB128) legitimately changes the length: check by re-parsing the dump
         back = observe(cs, T, out)
-        if back[0] == "ok" and back[1] == base[1] and ("leb128" in text):
-            return None
+        if back[0] == "ok" and back[1] == base[1] and ("leb128" in text) and len(out) < n:
+            return None                 # (only a SHORTER dump: the input was not minimal; a longer one means the writer is not minimal)
         return {"observed": f"dumps produced {len(out)} bytes", "expected": f"{n} bytes (as many as parsing consumed)", "dump": out.hex()}
     mask = bytearray(n)
     for i in range(min(n, len(data))):        # bytes past the end of the input (the reader sought into tail padding) carry nothing
@@ -77,6 +77,7 @@ def check(run: Run) -> None:
     thorough = run.tier == "thorough"
     ok = run.prove("Props/C02.v")
     items, explained, failures, n_oracle, n_flips = [], set(), 0, 0, 0
+    pending = []
     for i in range(1500 if thorough else 260):
         c = F.gen_case(rng, depth=2, unions=(i % 4 == 0), static_only=(i % 3 == 0), max_fields=5, leb=(i % 6 == 0), floats=(i % 2 == 0))
         ds = [F.random_data(rng, rng.choice([4, 8, 12, 20, 28])) for _ in range(2)]
@@ -99,9 +100,54 @@ def check(run: Run) -> None:
                 for it in its:
                     explained.add(id(it))
                 kind = "union" if "union" in c.text else "struct"
+                if kind == "union" and "mask" in prob:
+                    # recorded finding (root cause: C11/dump-through-largest-member): the dump differs from the expected bytes only by
+                    # CLEARED bits - data of other members that is padding / unassigned bits in the union's largest member
+                    out, want = bytes.fromhex(prob["observed"].split(" ")[1]), bytes.fromhex(prob["expected"].rsplit(" ", 1)[1])
+                    if len(out) == len(want) and all(o & ~w == 0 for o, w in zip(out, want)):
+                        # ... and only if the dump is what the model of the CURRENT writer produces (decided after the correspondence ran)
+                        pending.append((its, {**c.describe(), "ops": [{"op": "parse+dump", "data": d.hex(), **prob}]}))
+                        continue
                 run.report(f"C02/{kind}", {**c.describe(), "ops": [{"op": "parse+dump", "data": d.hex(), **prob}]})
 
+    # LEB128 at the group boundaries: canonical (minimal) encodings of -2^(7k-1), 2^(7k-1)-1 and neighbours, written here independently
+    def sleb(v: int) -> bytes:
+        out = bytearray()
+        while True:
+            b, v = v & 0x7F, v >> 7
+            if (v == 0 and not b & 0x40) or (v == -1 and b & 0x40):
+                return bytes(out + bytes([b]))
+            out.append(b | 0x80)
+
+    def uleb(v: int) -> bytes:
+        out = bytearray()
+        while True:
+            b, v = v & 0x7F, v >> 7
+            if v == 0:
+                return bytes(out + bytes([b]))
+            out.append(b | 0x80)
+
+    leb_text = "struct main { ileb128 a; uleb128 b; ileb128 c[2]; uint8 t; };"
+    for k in (1, 2, 3, 5):
+        for v in (-(1 << (7 * k - 1)), -(1 << (7 * k - 1)) - 1, (1 << (7 * k - 1)) - 1, 1 << (7 * k - 1), -(1 << (7 * k - 1)) + 1):
+            d = sleb(v) + uleb(abs(v)) + sleb(-v) + sleb(v) + b"\x07"
+            for endian in ("<", ">"):
+                c = Case(leb_text, endian=endian, compiled=bool(k % 2))
+                c.ops = [("parse", d, 0), ("dump", d, 0)]
+                its = build_items(c)
+                items += its
+                n_oracle += 1
+                prob = fidelity_problem(c._cs, c._T, d, leb_text)
+                if prob:
+                    failures += 1
+                    for it in its:
+                        explained.add(id(it))
+                    run.report("C02/leb128-boundary", {**c.describe(), "ops": [{"op": "parse+dump", "data": d.hex(), **prob}]})
+
     mism = run_items(run, items)
+    bad = {id(m) for m in mism}
+    for its_, rep in pending:
+        run.report("C02/union" if any(id(x) in bad for x in its_) else "C02/union-dumped-through-largest-member", rep)
     report_unexplained(run, mism, explained, "corr_rw (Model.Reader.read_top / Model.Writer.dumps vs the implementation)")
     F.obligation_fallback(run, ok, bool(failures or mism))
     F.finish_cov(run, items, mism,
